@@ -249,7 +249,7 @@ func (ck *checker) checkSet(routine string, q *queryRec, got []cd, want []int64,
 			// point). Only when an irrational square root takes part can a one-ulp rounding of
 			// the triangle-inequality prune explain the loss.
 			kind := "boundary-point-lost-inexact"
-			if q.Exact && rExact {
+			if !ck.sqrt || q.Exact && rExact { // (kdtree works on squared integers: always exact)
 				kind = "boundary-point-lost"
 			}
 			ck.fail(routine, kind, fmt.Sprintf("%s q=%v: got distances %v, spec says (squared) %v: %d stored point(s) at exactly the query radius are missing", what, q.Q, dists(got), want, len(want)-len(got)))
